@@ -99,7 +99,7 @@ fn spill_tables(per_batch: usize) -> Tables {
 }
 
 fn make_ctx(setup: &str, std: &Tables, spill: &Tables, spill_s: &Tables) -> ExecutionContext {
-    let (mut ctx, tabs) = if setup == "spill10k" { (ExecutionContext::with_memory_limit(100_000), spill_s) } else if setup == "spill" { (ExecutionContext::with_memory_limit(100_000), spill) } else { (ExecutionContext::new(), std) };
+    let (mut ctx, tabs) = if setup == "nolimit" { (ExecutionContext::new(), spill) } else if setup == "spill10k" { (ExecutionContext::with_memory_limit(100_000), spill_s) } else if setup == "spill" { (ExecutionContext::with_memory_limit(100_000), spill) } else { (ExecutionContext::new(), std) };
     for (n, s, b) in tabs { ctx.register_table(n.clone(), s.clone(), b.clone()); }
     ctx
 }
@@ -118,8 +118,15 @@ fn err_kind(e: &query_engine::error::QueryError) -> &'static str {
     }
 }
 
+#[repr(C)]
+struct RLimit { cur: u64, max: u64 }
+extern "C" { fn setrlimit(resource: i32, rlim: *const RLimit) -> i32; }
+
 /// Hidden sub-mode: read one case per line on stdin, answer one `R <json>` line per case on stdout.
 fn child_main() {
+    // address-space cap (RLIMIT_AS = 9 on Linux): an unbounded allocation becomes a clean `abort` outcome instead of eating the machine
+    let cap = RLimit { cur: 6 << 30, max: 6 << 30 };
+    unsafe { setrlimit(9, &cap); }
     let last: Arc<Mutex<(String, String)>> = Arc::new(Mutex::new((String::new(), String::new())));
     let main_id = std::thread::current().id();
     {
@@ -338,11 +345,17 @@ fn run_all(cases: Vec<Value>, limit_ms: u64, jobs: usize) {
                 let k = next.fetch_add(1, Ordering::SeqCst);
                 if k >= n { break; }
                 let c = &cases[k];
-                if c["kind"] == "batch" { continue; }
+                if c["kind"] == "batch" || c["kind"] == "opt" { continue; }
                 let setup = c["setup"].as_str().unwrap_or("std");
                 let sql = c["sql"].as_str().unwrap_or("");
                 if pool.kid.is_none() { since_spawn.clear(); }
-                let (i, alive) = pool.run(setup, sql);
+                let (mut i, alive) = pool.run(setup, sql);
+                if alive && i["outcome"] == "panic" && setup.starts_with("spill") {
+                    // neutraliser (DESIGN 3.4): the same statement over the same tables without the memory limit
+                    let (nt, alive2) = pool.run("nolimit", sql);
+                    if !alive2 { pool.kill(); }
+                    i["neutral"] = nt["outcome"].clone();
+                }
                 if !alive || is_bad(&i) {
                     pool.kill();
                     suspects.lock().unwrap().push((k, i, std::mem::take(&mut since_spawn)));
@@ -385,6 +398,7 @@ fn run_all(cases: Vec<Value>, limit_ms: u64, jobs: usize) {
     for k in 0..n {
         let c = cases[k].clone();
         if c["kind"] == "batch" { let i = run_batch_case(&c, limit_ms); emit(c, i); continue; }
+        if c["kind"] == "opt" { let i = run_opt(&c); emit(c, i); continue; }
         for (kk, bc, bi) in &extra { if *kk == k { emit(bc.clone(), bi.clone()); } }
         emit(c, res[k].clone().unwrap_or(json!({"outcome":"abort","kind":"harness","detail":"no result recorded"})));
     }
@@ -409,7 +423,7 @@ const SPILL_TABS: &[Tab] = &[
     Tab { name: "small", cols: &[("k",'i'),("v",'f')] },
 ];
 
-struct G<'a> { r: &'a mut Rng, tabs: &'static [Tab], scope: Vec<(String, &'static Tab)>, wild: u64 }
+struct G<'a> { r: &'a mut Rng, tabs: &'static [Tab], scope: Vec<(String, &'static Tab)>, wild: u64, multi: bool }
 
 impl<'a> G<'a> {
     fn lit(&mut self) -> String {
@@ -512,10 +526,13 @@ impl<'a> G<'a> {
         if d > 0 && self.r.chance(1, 6) {
             // derived table: its columns are unknown to the generator -> treat as t2-shaped only by luck
             let q = self.query(d - 1, false);
-            return format!("({}) {}", q, alias);
+            // derived tables are capped so that joins over them stay small (a time-out must be the engine's doing, not the data's)
+            return if q.contains(" LIMIT ") || q.contains(" FETCH ") { format!("({}) {}", q, alias) } else { format!("({} LIMIT 20) {}", q, alias) };
         }
         if self.r.below(100) < self.wild { return format!("{} {}", ["nosuch","t1.t1","\"T1\"","information_schema.tables","(t1)","t1 t1 t1","UNNEST(ARRAY[1,2])","LATERAL (SELECT 1)","TABLE(f(1))","generate_series(1,3)","read_parquet('/nonexistent')"][self.r.below(11) as usize], alias); }
-        let t = &self.tabs[self.r.below(self.tabs.len() as u64) as usize];
+        let mut t = &self.tabs[self.r.below(self.tabs.len() as u64) as usize];
+        // the large tables only stand alone (no cross products over them)
+        if n > 0 || self.multi { while t.name == "big" || t.name == "small" { t = &self.tabs[self.r.below(self.tabs.len() as u64) as usize]; if self.tabs.len() <= 2 { break; } } }
         if self.r.chance(1, 3) { self.scope.push((t.name.to_string(), t)); t.name.to_string() }
         else { self.scope.push((alias.clone(), t)); format!("{}{}{}", t.name, [" ", " AS "][self.r.below(2) as usize], alias) }
     }
@@ -538,7 +555,9 @@ impl<'a> G<'a> {
         } else {
             // FROM first (so that the select list can use the scope), printed later
             let mut from = String::new();
-            let nt = if self.r.chance(1, 12) { 0 } else { 1 + self.r.below(3) as usize };
+            let mut nt = if self.r.chance(1, 12) { 0 } else { 1 + self.r.below(3) as usize };
+            if self.tabs.len() <= 2 { nt = nt.min(1); }
+            self.multi = nt > 1;
             self.scope.clear();
             for j in 0..nt {
                 let tr = self.table_ref(d, j);
@@ -595,11 +614,11 @@ impl<'a> G<'a> {
     }
 }
 
-fn tabs_of(setup: &str) -> &'static [Tab] { if setup == "spill" { SPILL_TABS } else { STD_TABS } }
+fn tabs_of(setup: &str) -> &'static [Tab] { if setup.starts_with("spill") || setup == "nolimit" { SPILL_TABS } else { STD_TABS } }
 
 fn gen_grammar(r: &mut Rng, setup: &str, wild: u64) -> String {
     let d = 1 + r.below(3) as u32;
-    let mut g = G { r, tabs: tabs_of(setup), scope: vec![], wild };
+    let mut g = G { r, tabs: tabs_of(setup), scope: vec![], wild, multi: false };
     g.query(d, true)
 }
 
@@ -643,11 +662,11 @@ fn gen_stmt(r: &mut Rng) -> String {
 /// size / nesting boundaries
 fn gen_deep(r: &mut Rng) -> String {
     let depths = [10usize, 25, 40, 48, 49, 50, 51, 52, 60, 100, 500, 3000, 10000];
-    let chains = [10usize, 100, 1000, 3000, 10000];
+    let chains = [10usize, 100, 1000, 10000];
     let d = *r.pick(&depths);
     let n = *r.pick(&chains);
     let c = ["a","b","c","s","e"][r.below(5) as usize];
-    match r.below(30) {
+    match r.below(31) {
         0 => format!("SELECT {}1{} FROM t1", "(".repeat(d), ")".repeat(d)),
         1 => format!("SELECT a FROM t1 WHERE {}a > 1{}", "(".repeat(d), ")".repeat(d)),
         2 => { let mut s = String::from("SELECT a FROM t1"); for _ in 0..d.min(600) { s = format!("SELECT a FROM ({}) q", s); } s }
@@ -663,22 +682,58 @@ fn gen_deep(r: &mut Rng) -> String {
         12 => format!("SELECT {}a FROM t1", "NOT ".repeat(d.min(3000)).replace("NOT ", if r.chance(1, 2) { "- " } else { "NOT " })),
         13 => format!("SELECT {} FROM t1", "9".repeat(n.min(5000))),
         14 => format!("SELECT 1.{} FROM t1", "3".repeat(n.min(5000))),
-        15 => format!("SELECT '{}' FROM t1 LIMIT 1", "x".repeat(n * 100)),
+        15 => format!("SELECT LENGTH('{}')", "x".repeat(n * 100)),
         16 => format!("SELECT {} FROM t1", "z".repeat(n * 10)),
-        17 => format!("SELECT {} FROM t1 LIMIT 2", (0..n.min(3000)).map(|j| format!("a + {} AS c{}", j, j)).collect::<Vec<_>>().join(", ")),
+        17 => format!("SELECT {} FROM t1 LIMIT 2", (0..n.min(1000)).map(|j| format!("a + {} AS c{}", j, j)).collect::<Vec<_>>().join(", ")),
         18 => (0..n.min(1000)).map(|j| format!("SELECT {} AS v", j)).collect::<Vec<_>>().join(if r.chance(1, 2) { " UNION ALL " } else { " UNION " }),
-        19 => format!("SELECT CASE {} ELSE 0 END FROM t1", (0..n.min(3000)).map(|j| format!("WHEN a = {} THEN {}", j, j)).collect::<Vec<_>>().join(" ")),
+        19 => format!("SELECT CASE {} ELSE 0 END FROM t1", (0..n.min(1000)).map(|j| format!("WHEN a = {} THEN {}", j, j)).collect::<Vec<_>>().join(" ")),
         20 => { let m = [2usize, 5, 8, 10, 12, 14, 18, 30][r.below(8) as usize]; format!("SELECT COUNT(*) FROM {} WHERE {}", (0..m).map(|j| format!("t1 q{}", j)).collect::<Vec<_>>().join(", "), (1..m).map(|j| format!("q{}.a = q{}.a", j - 1, j)).collect::<Vec<_>>().join(" AND ")) }
         21 => { let m = [2usize, 6, 10, 14, 20, 40][r.below(6) as usize]; format!("SELECT COUNT(*) FROM t1 q0 {}", (1..m).map(|j| format!("{} t1 q{} ON q{}.a = q{}.a", ["JOIN","LEFT JOIN"][r.below(2) as usize], j, j - 1, j)).collect::<Vec<_>>().join(" ")) }
         22 => { let m = n.min(300); format!("WITH {} SELECT * FROM c{}", (0..m).map(|j| if j == 0 { "c0 AS (SELECT 1 AS v)".to_string() } else { format!("c{} AS (SELECT v + 1 AS v FROM c{})", j, j - 1) }).collect::<Vec<_>>().join(", "), m - 1) }
-        23 => format!("SELECT COALESCE({}) FROM t1", (0..n).map(|_| "b").collect::<Vec<_>>().join(", ")),
-        24 => format!("SELECT a FROM t1 ORDER BY {}", (0..n.min(2000)).map(|j| format!("a + {}", j)).collect::<Vec<_>>().join(", ")),
-        25 => format!("SELECT a FROM t1 GROUP BY a, {}", (0..n.min(1000)).map(|j| format!("b + {}", j)).collect::<Vec<_>>().join(", ")),
+        23 => format!("SELECT COALESCE({}) FROM t1", (0..n.min(1000)).map(|_| "b").collect::<Vec<_>>().join(", ")),
+        24 => format!("SELECT a FROM t1 ORDER BY {}", (0..n.min(300)).map(|j| format!("a + {}", j)).collect::<Vec<_>>().join(", ")),
+        25 => format!("SELECT a FROM t1 GROUP BY a, {}", (0..n.min(300)).map(|j| format!("b + {}", j)).collect::<Vec<_>>().join(", ")),
         26 => format!("SELECT {}a{} FROM t1", "ABS(".repeat(d), ")".repeat(d)),
         27 => { let dd = if r.chance(1, 8) { d.min(3000) } else { [5usize, 20, 40, 44, 46][r.below(5) as usize] }; format!("SELECT {}a{} FROM t1", "CAST(".repeat(dd), " AS BIGINT)".repeat(dd)) }
-        28 => { let cube = r.chance(1, 2); let m = if cube { [2usize, 4, 6, 8][r.below(4) as usize] } else { [2usize, 4, 8, 9, 12, 20][r.below(6) as usize] }; format!("SELECT a, COUNT(*) FROM t1 GROUP BY {}({})", if cube { "CUBE" } else { "ROLLUP" }, (0..m).map(|j| ["a","b","c","s","d","e","i"][j % 7].to_string() + &(if j >= 7 { format!(" + {}", j) } else { String::new() })).collect::<Vec<_>>().join(", ")) }
-        _ => format!("SELECT a FROM t1 WHERE {}", (0..n.min(3000)).map(|j| format!("(a = {} AND b = {})", j, j)).collect::<Vec<_>>().join(" OR ")),
+        28 => { let cube = r.chance(1, 2); let m = if cube { [2usize, 3, 5, 6][r.below(4) as usize] } else { [2usize, 4, 8, 9, 12, 20][r.below(6) as usize] }; format!("SELECT a, COUNT(*) FROM t1 GROUP BY {}({})", if cube { "CUBE" } else { "ROLLUP" }, (0..m).map(|j| ["a","b","c","s","d","e","i"][j % 7].to_string() + &(if j >= 7 { format!(" + {}", j) } else { String::new() })).collect::<Vec<_>>().join(", ")) }
+        29 => { let e = ["empty0","empty1"][r.below(2) as usize]; let m = 2 + r.below(4) as usize;
+                format!("SELECT COUNT(*) FROM {} q0, {} WHERE q0.x = q1.a{}", e, (1..=m).map(|j| format!("{} q{}", ["t1","t2","empty1"][j % 3], j)).collect::<Vec<_>>().join(", "), if r.chance(1, 2) { " AND q1.a = q2.k" } else { "" }) }
+        _ => format!("SELECT a FROM t1 WHERE {}", (0..n.min(1000)).map(|j| format!("(a = {} AND b = {})", j, j)).collect::<Vec<_>>().join(" OR ")),
     }
+}
+
+/// scalar functions and operators at argument boundaries (i64 extremes, shift counts, radices, date overflow, division by zero)
+fn gen_fnb(r: &mut Rng) -> String {
+    let pool: &[&str] = &["-9223372036854775808","9223372036854775807","0","-1","1","2","36","37","63","64","65","100","-100","2147483647","-2147483648","4294967296",
+        "1e308","-1e308","1.5","0.0","'x'","''","NULL","'9223372036854775807'","'zz'","'day'","'year'","'month'","'%Y'","'UTC'","'$.a'","'[1,2]'","'(a'",
+        "DATE '9999-12-31'","DATE '0001-01-01'","DATE '1970-01-01'","TIMESTAMP '9999-12-31 23:59:59'","a","b","c","s","d","e","i","ARRAY[1,2]","ARRAY[]","[1.0,2.0]","[]"];
+    let bexprs: &[&str] = &["a + 9223372036854775807","b * 9223372036854775807","- (-9223372036854775807 - 1)","a / 0","a % 0","i / 0","c / 0","c % 0","i * 2147483647","i + 2147483647",
+        "CAST(1e30 AS BIGINT)","CAST(c * 1e300 AS BIGINT)","CAST(a + 2147483648 AS INTEGER)","CAST('x' AS DATE)","CAST(s AS BIGINT)","CAST(s AS DOUBLE)","CAST(s AS DATE)","CAST(s AS BOOLEAN)","CAST(d AS BIGINT)","CAST(a AS DATE)","CAST(c AS DATE)","CAST(e AS DOUBLE)",
+        "d + 2147483647","d - 2147483647","d + INTERVAL '999999999' DAY","d - INTERVAL '9999999' YEAR","d + a","DATE '9999-12-31' + INTERVAL '1' YEAR","d - DATE '0001-01-01'","a - (-9223372036854775807 - 1)","-9223372036854775808","- a * 9223372036854775807","i - 2147483647 - 2"];
+    if r.chance(1, 4) { return format!("SELECT {} FROM t1{}", r.pick(bexprs), if r.chance(1, 2) { " WHERE a < 3" } else { "" }); }
+    let f = *r.pick(FUNCS);
+    if r.chance(1, 5) {
+        // untyped draw
+        let n = 1 + r.below(3);
+        let args: Vec<String> = (0..n).map(|_| r.pick(pool).to_string()).collect();
+        return format!("SELECT {}({}) FROM t1", f, args.join(", "));
+    }
+    // typed by argument class, so that calls get past the arity/type checks and reach the kernels
+    let num: &[&str] = &["k","v","a","b","c","i","-9223372036854775808","9223372036854775807","0","-1","1","2","36","37","63","64","65","100","2147483647","-2147483648","4294967296","0.5","1.5","-0.5","1e308","NULL"];
+    let st: &[&str] = &["s","name","'x'","''","'11'","'zz'","'9223372036854775807'","'[1,2]'","'{\"a\":1}'","'$.a'","'(a'","'a%'","'http://h.io/p?q=1#f'","NULL"];
+    let dt: &[&str] = &["d","DATE '9999-12-31'","DATE '0001-01-01'","DATE '1970-01-01'","TIMESTAMP '9999-12-31 23:59:59'","CAST(d AS TIMESTAMP)","NULL"];
+    let unit: &[&str] = &["'day'","'year'","'month'","'week'","'hour'","'second'","'millisecond'","'quarter'","'nosuch'"];
+    let arr: &[&str] = &["ARRAY[1,2]","ARRAY[]","[1.0,2.0]","[]","ARRAY['a','b']","ARRAY[NULL]","ARRAY[9223372036854775807, 1]"];
+    let shapes: &[&str] = &["N","NN","NNN","NNNN","S","SN","SS","SNS","SSS","SNN","SSN","D","UD","UND","UDD","DN","DS","SD","NS","A","AA","AN","AS","ANN","NA",""];
+    let shape = *r.pick(shapes);
+    let mut args: Vec<String> = vec![];
+    for ch in shape.chars() {
+        args.push(match ch { 'N' => r.pick(num), 'S' => r.pick(st), 'D' => r.pick(dt), 'U' => r.pick(unit), _ => r.pick(arr) }.to_string());
+    }
+    let uses = |cols: &[&str]| args.iter().any(|a| cols.contains(&a.as_str()) || a.contains("(d ")) ;
+    let (u1, u2) = (uses(&["a","b","c","i","s","d","e"]), uses(&["k","v","name"]));
+    let from = match (u1, u2) { (true, true) => " FROM t1, t2", (true, false) => " FROM t1", (false, true) => " FROM t2", _ => if r.chance(1, 2) { " FROM t2" } else { "" } };
+    format!("SELECT {}({}){}", f, args.join(", "), from)
 }
 
 fn mutate(r: &mut Rng, s: &str) -> String {
@@ -712,7 +767,59 @@ fn gen_bytes(r: &mut Rng) -> String {
     String::from_utf8_lossy(&v).to_string()
 }
 
+fn gen_opt(r: &mut Rng) -> Value {
+    let k = r.below(6);
+    let rules: Vec<Value> = (0..k).map(|j| {
+        let kind = *r.pick(&["inc","inc","id","bump","failAt","halve"]);
+        let name = if r.chance(1, 5) { "PackedJoinKeys".to_string() } else if r.chance(1, 6) { "JoinReorder".to_string() } else { format!("R{}", j) };
+        json!({"name": name, "kind": kind, "m": r.below(40)})
+    }).collect();
+    json!({"kind":"opt","stream":"opt","start": r.below(30), "rules": rules})
+}
+
+struct TestRule { name: String, kind: String, m: usize, apps: Arc<AtomicUsize> }
+fn fetch_of(p: &query_engine::planner::LogicalPlan) -> usize { match p { query_engine::planner::LogicalPlan::Limit(l) => l.fetch.unwrap_or(0), _ => 0 } }
+impl query_engine::optimizer::OptimizerRule for TestRule {
+    fn name(&self) -> &str { &self.name }
+    fn optimize(&self, plan: &query_engine::planner::LogicalPlan) -> query_engine::Result<query_engine::planner::LogicalPlan> {
+        self.apps.fetch_add(1, Ordering::SeqCst);
+        let n = fetch_of(plan);
+        let n2 = match self.kind.as_str() {
+            "inc" => if n < self.m { n + 1 } else { n },
+            "failAt" => if n == self.m { return Err(query_engine::QueryError::Plan(format!("rule {} failed at {}", self.name, n))); } else { n },
+            "bump" => n + 1,
+            "halve" => if n > self.m { n / 2 } else { n },
+            _ => n,
+        };
+        match plan {
+            query_engine::planner::LogicalPlan::Limit(l) => Ok(query_engine::planner::LogicalPlan::Limit(query_engine::planner::LimitNode { input: l.input.clone(), skip: l.skip, fetch: Some(n2) })),
+            other => Ok(other.clone()),
+        }
+    }
+}
+
+/// `Optimizer::with_rules(rules).optimize(Limit(fetch = start) over a scan)`: final fetch or failing rule's name, and the number of rule applications
+fn run_opt(c: &Value) -> Value {
+    let c = c.clone();
+    guarded(move || {
+        use query_engine::planner::{LogicalPlanBuilder, PlanSchema, SchemaField};
+        let apps = Arc::new(AtomicUsize::new(0));
+        let rules: Vec<Arc<dyn query_engine::optimizer::OptimizerRule>> = c["rules"].as_array().cloned().unwrap_or_default().iter().map(|j| {
+            Arc::new(TestRule { name: j["name"].as_str().unwrap_or("").to_string(), kind: j["kind"].as_str().unwrap_or("id").to_string(), m: j["m"].as_u64().unwrap_or(0) as usize, apps: apps.clone() }) as Arc<dyn query_engine::optimizer::OptimizerRule>
+        }).collect();
+        let schema = PlanSchema::new(vec![SchemaField::new("a", DataType::Int64)]);
+        let plan = LogicalPlanBuilder::scan("t", schema).limit(0, Some(c["start"].as_u64().unwrap_or(0) as usize)).build();
+        let out = match query_engine::optimizer::Optimizer::with_rules(rules).optimize(plan) {
+            Ok(p) => json!({"ok": fetch_of(&p)}),
+            Err(e) => { let m = e.to_string(); json!({"err": m.split('`').nth(1).unwrap_or(&m)}) }
+        };
+        json!({"out": out, "apps": apps.load(Ordering::SeqCst)})
+    })
+}
+
 fn gen_case(r: &mut Rng, n: usize) -> Value {
+    if n % 20 == 19 && n % 40 == 39 { return gen_opt(r); }
+    if n % 20 == 12 { return json!({"kind":"sql","setup":"std","stream":"fnb","sql":gen_fnb(r)}); }
     let (setup, stream, sql) = match n % 20 {
         0..=6 => ("std", "grammar", gen_grammar(r, "std", 4)),
         7 | 8 => ("std", "wild", gen_grammar(r, "std", 30)),
@@ -720,7 +827,9 @@ fn gen_case(r: &mut Rng, n: usize) -> Value {
         12 | 13 => ("std", "stmt", gen_stmt(r)),
         14 => ("std", "bytes", gen_bytes(r)),
         15 | 16 => ("std", "deep", gen_deep(r)),
-        17 => ("spill", "spill-grammar", gen_grammar(r, "spill", 4)),
+        // the 10 000-row variant covers the spill paths at a fifth of the cost; the 40 000-row one is the A.7 setting
+        17 => ("spill10k", "spill-grammar", gen_grammar(r, "spill10k", 4)),
+        18 => ("spill10k", "spill", gen_spill(r)),
         _ => ("spill", "spill", gen_spill(r)),
     };
     json!({"kind":"sql","setup":setup,"stream":stream,"sql":sql})
@@ -731,9 +840,17 @@ pub fn main(o: &Opts) {
     // the parent runs no engine code: a panic here is a harness bug and must be loud
     std::panic::set_hook(Box::new(|i| { eprintln!("C29 harness bug: {}", i); }));
     let limit_ms = o.get_usize("limit_ms", 10_000) as u64;
-    let jobs = o.get_usize("jobs", 8);
+    let jobs = o.get_usize("jobs", 4);
     if let Some(p) = &o.replay { run_all(replay_cases(p), limit_ms, jobs); return; }
     let mut r = Rng::new(o.seed ^ 0xC29);
-    let cases: Vec<Value> = (0..o.cases).map(|n| gen_case(&mut r, n)).collect();
+    // `--opt only=<stream>` (development aid): draw every case from one stream
+    let only = o.get("only").map(|x| x.to_string());
+    let cases: Vec<Value> = (0..o.cases).map(|n| match only.as_deref() {
+        Some("fnb") => json!({"kind":"sql","setup":"std","stream":"fnb","sql":gen_fnb(&mut r)}),
+        Some("grammar") => json!({"kind":"sql","setup":"std","stream":"grammar","sql":gen_grammar(&mut r, "std", 4)}),
+        Some("deep") => json!({"kind":"sql","setup":"std","stream":"deep","sql":gen_deep(&mut r)}),
+        Some("spill") => json!({"kind":"sql","setup":"spill","stream":"spill","sql":gen_spill(&mut r)}),
+        _ => gen_case(&mut r, n),
+    }).collect();
     run_all(cases, limit_ms, jobs);
 }
